@@ -583,6 +583,9 @@ func genC03(w *bufio.Writer, tier string, rng *rand.Rand) {
 		switch {
 		case lim[0] >= 1000000:
 			n1, n2 = rng.Intn(31), rng.Intn(31)
+			if rng.Intn(4) == 0 { // pooled sizes up to 72 under the exact method
+				n1, n2 = 25+rng.Intn(12), 25+rng.Intn(12)
+			}
 		case lim[0] == 0 || lim[0] == 3:
 			n1, n2 = rng.Intn(12), rng.Intn(12)
 			if rng.Intn(3) == 0 {
